@@ -31,13 +31,15 @@ TRUSTED = ["Coq 8.16.1 kernel (coqc); no axioms (Print Assumptions: closed under
 ASSUME = ["callbacks only add MetaData to the stream they are given and return one of: the site, the site with the method "
           "renamed, the site wrapped in a function call",
           "the function name MetaData is not used inside lambdas", "lambdas supplied as strings or ast objects"]
-RULE = ("generated variants of a 5-class model with callbacks at every placement (class, inherited class, method, both, function "
+RULE = ("generated variants of an 8-class model with callbacks at every placement (class, class inherited from a decorated base, "
+        "decorated subclass of an undecorated / differently decorated base with inherited, overridden and own methods, method, both, function "
         "processor, parameterized property), each with distinct metadata and a random rewrite; queries with call sites at "
         "lambda depth 0-2 (below the operator lambda) inside Select/Where/SelectMany of the stream and of typed collections, through First/subscript, "
         "dictionary fields and tuples; expected invocation log, metadata chain and emitted call sites known by construction; "
         "non-trivial = at least one callback site; distinct by ast.dump")
 
-PLACEMENTS = ["trackcls", "trackpt", "jetcls", "jetpt", "jettrks", "evcls", "evjets", "fproc", "pcb", "subx"]
+PLACEMENTS = ["trackcls", "trackpt", "jetcls", "jetpt", "jettrks", "evcls", "evjets", "fproc", "pcb", "subx",
+              "partcls", "partpt", "lepcls", "lepeta", "lepiso", "mucls"]
 
 
 def gen_desc(r):
@@ -59,12 +61,22 @@ def gen_desc(r):
              "methods": [{"name": "pt", "ret": "float", "cb": g("trackpt")}, {"name": "eta", "ret": "float"}],
              "props": [{"name": "getAttr", "cb": "pcb"}]},
             {"name": "SubTrack", "base": "Track", "methods": [{"name": "x", "ret": "int", "cb": g("subx")}]},
+            # inherited / overridden / own methods under decorated base, decorated subclass, both, neither
+            {"name": "Particle", "cb": g("partcls"),
+             "methods": [{"name": "pt", "ret": "float", "cb": g("partpt")}, {"name": "eta", "ret": "float"},
+                         {"name": "phi", "ret": "float"}]},
+            {"name": "Lepton", "base": "Particle", "cb": g("lepcls"),
+             "methods": [{"name": "eta", "ret": "float", "cb": g("lepeta")}, {"name": "iso", "ret": "float", "cb": g("lepiso")}]},
+            {"name": "Muon", "base": "Lepton", "cb": g("mucls"), "methods": [{"name": "hits", "ret": "float"}]},
             {"name": "Jet", "cb": g("jetcls"),
              "methods": [{"name": "pt", "ret": "float", "cb": g("jetpt")},
                          {"name": "trks", "ret": "Iterable[Track]", "cb": g("jettrks")},
-                         {"name": "subs", "ret": "Iterable[SubTrack]"}]},
+                         {"name": "subs", "ret": "Iterable[SubTrack]"},
+                         {"name": "leps", "ret": "Iterable[Lepton]"}]},
             {"name": "Event", "cb": g("evcls"),
-             "methods": [{"name": "Jets", "ret": "Iterable[Jet]", "cb": g("evjets")}, {"name": "met", "ret": "float"}]},
+             "methods": [{"name": "Jets", "ret": "Iterable[Jet]", "cb": g("evjets")}, {"name": "met", "ret": "float"},
+                         {"name": "Muons", "ret": "Iterable[Muon]"}, {"name": "LeadLep", "ret": "Lepton"},
+                         {"name": "LeadMu", "ret": "Muon"}, {"name": "Parts", "ret": "Iterable[Particle]"}]},
         ],
         "functions": [{"name": "myf", "params": [("a", None)], "ret": "float", "proc": g("fproc")},
                       {"name": "plainf", "params": [("a", None)], "ret": "float"}],
@@ -73,12 +85,21 @@ def gen_desc(r):
     return desc
 
 
-CLASS_CB = {"Track": "trackcls", "SubTrack": "trackcls", "Jet": "jetcls", "Event": "evcls"}
+# class callback of a class: its own decorator, else the nearest decorated base (the attribute is inherited)
+CLASS_CB = {"Track": ["trackcls"], "SubTrack": ["trackcls"], "Jet": ["jetcls"], "Event": ["evcls"],
+            "Particle": ["partcls"], "Lepton": ["lepcls", "partcls"], "Muon": ["mucls", "lepcls", "partcls"]}
+LEPTONS = ("Particle", "Lepton", "Muon")
 METHODS = {  # class -> method -> (method cb placement, result kind)
     "Track": {"pt": ("trackpt", "float"), "eta": (None, "float")},
     "SubTrack": {"pt": ("trackpt", "float"), "eta": (None, "float"), "x": ("subx", "float")},
-    "Jet": {"pt": ("jetpt", "float"), "trks": ("jettrks", "iter:Track"), "subs": (None, "iter:SubTrack")},
-    "Event": {"Jets": ("evjets", "iter:Jet"), "met": (None, "float")},
+    "Jet": {"pt": ("jetpt", "float"), "trks": ("jettrks", "iter:Track"), "subs": (None, "iter:SubTrack"),
+            "leps": (None, "iter:Lepton")},
+    "Event": {"Jets": ("evjets", "iter:Jet"), "met": (None, "float"), "Muons": (None, "iter:Muon"),
+              "Parts": (None, "iter:Particle"), "LeadLep": (None, "obj:Lepton"), "LeadMu": (None, "obj:Muon")},
+    "Particle": {"pt": ("partpt", "float"), "eta": (None, "float"), "phi": (None, "float")},
+    "Lepton": {"pt": ("partpt", "float"), "eta": ("lepeta", "float"), "phi": (None, "float"), "iso": ("lepiso", "float")},
+    "Muon": {"pt": ("partpt", "float"), "eta": ("lepeta", "float"), "phi": (None, "float"), "iso": ("lepiso", "float"),
+             "hits": (None, "float")},
 }
 
 
@@ -111,8 +132,8 @@ class Q:
         mcb, res = METHODS[cls][name]
         w = call(A(recv, name), [])
         site = call(A(recv_x, name), [])
-        ccb = CLASS_CB[cls]
-        if ccb in self.cbs:
+        ccb = next((c for c in CLASS_CB[cls] if c in self.cbs), None)
+        if ccb is not None:
             site = self.fire(ccb, site, ev)
         if mcb is not None and mcb in self.cbs:
             site = self.fire(mcb, site, ev)
@@ -122,11 +143,32 @@ class Q:
         """a float-valued expression over variable v : cls"""
         self.depth = max(self.depth, d)
         r = self.r
+        if cls in LEPTONS:
+            k = r.choice(sorted(METHODS[cls]) + ["fn", "binop"])
+            if k in METHODS[cls]:
+                w, x, _ = self.mcall(cls, N(v), N(v), k, ev)
+                return w, x
+            if k == "fn":
+                a, ax = self.scalar(cls, v, d, ev)
+                w, site = call(N("myf"), [a]), call(N("myf"), [ax])
+                if "fproc" in self.cbs:
+                    site = self.fire("fproc", site, ev)
+                return w, site
+            a, ax = self.scalar(cls, v, d, ev)
+            b, bx = self.scalar(cls, v, d, ev)
+            return gen.binop(ast.Add, a, b), gen.binop(ast.Add, ax, bx)
         opts = ["pt", "fn", "plain", "binop", "param"] if cls in ("Track", "SubTrack") else \
-            ["pt", "fn", "binop", "nestfirst", "nestcount", "dict"] if cls == "Jet" else ["met", "fn", "nestfirst", "nestcount", "tuple"]
+            ["pt", "fn", "binop", "nestfirst", "nestcount", "dict"] if cls == "Jet" else \
+            ["met", "fn", "nestfirst", "nestcount", "tuple", "lead", "lead"]
         k = r.choice(opts)
         if k in ("pt", "met"):
             w, x, _ = self.mcall(cls, N(v), N(v), k, ev)
+            return w, x
+        if k == "lead":
+            # a method of an object returned directly (no lambda): e.LeadLep().pt()
+            o, ox, res = self.mcall("Event", N(v), N(v), r.choice(["LeadLep", "LeadMu"]), ev)
+            sub = res.split(":")[1]
+            w, x, _ = self.mcall(sub, o, ox, r.choice(sorted(METHODS[sub])), ev)
             return w, x
         if k in ("fn", "plain"):
             a, ax = self.scalar(cls, v, d, ev)
@@ -164,7 +206,7 @@ class Q:
             f, fx = call(A(coll, "First"), []), call(A(collx, "First"), [])
         else:
             f, fx = gen.sub(coll, C(0)), gen.sub(collx, C(0))
-        name = "pt"
+        name = r.choice(sorted(METHODS[sub])) if sub in LEPTONS else "pt"
         w, x, _ = self.mcall(sub, f, fx, name, ev)
         return w, x
 
@@ -172,15 +214,15 @@ class Q:
         """an Iterable-valued expression over v : cls -> (written, expected, element class)"""
         r = self.r
         if cls == "Event":
-            w, x, res = self.mcall("Event", N(v), N(v), "Jets", ev)
+            w, x, res = self.mcall("Event", N(v), N(v), r.choice(["Jets", "Jets", "Muons", "Parts"]), ev)
         else:
-            w, x, res = self.mcall("Jet", N(v), N(v), r.choice(["trks", "subs"]), ev)
+            w, x, res = self.mcall("Jet", N(v), N(v), r.choice(["trks", "subs", "leps"]), ev)
         return w, x, res.split(":")[1]
 
     def top(self, cls, v, d, ev):
         """body of an operator lambda over v : cls -> (written, expected)"""
         r = self.r
-        if cls in ("Track", "SubTrack") or d >= 3 or r.random() < 0.3:
+        if cls in ("Track", "SubTrack") + LEPTONS or d >= 3 or r.random() < 0.3:
             return self.scalar(cls, v, d, ev)
         coll, collx, sub = self.collection(cls, v, d, ev)
         nv = r.choice(["j", "t", v])
@@ -197,14 +239,6 @@ class Q:
             collx = call(A(collx, "Where"), [lam(nv, gen.cmp(ast.Lt, cx, C(5)))])
         b, bx = self.top(sub, nv, d + 1, ev)
         return call(A(coll, "Select"), [lam(nv, b)]), call(A(collx, "Select"), [lam(nv, bx)])
-
-
-def check_one(ctx, model, w, desc, op, q, qx, events, g_sites, g_depth):
-    from func_adl.util_ast import as_ast
-
-    item = model.ev("Event")
-    ans = ctx.driver.call("op", [tc.model_requests(w, op, model.ty_sx(item), q)])[0]
-    return ans
 
 
 def run_cases(ctx, model, desc, cases):
